@@ -77,6 +77,15 @@ def run(ctx):
             ops += [f'sxg.write {exs(e)}', f'sxg.msg {exs(e)} {"bb" * 32} {hexs(b"https://example.com/v")} 5 10']
         for slen in (16383, 16384, 16385):
             ops.append(f'sxg.write {exs(ex(ver, b"https://example.com/", b"GET", [], 200, [], b"s" * slen, b"p"))}')
+        # request header maps that cannot form a CBOR map (b1 / b2): a name that collides with a pseudo header, two names equal after folding
+        # (placed so that they are NOT adjacent in any plausible build order), alone and among a dozen others
+        if ver != 'b3':
+            many = [(b'X-H%02d' % i, [b'v']) for i in range(12)]
+            for rq_ in ([(b':method', [b'GET'])], [(b':url', [b'https://example.com/'])], [(b'Accept', [b'a']), (b'accept', [b'b'])], many[:6] + [(b'X-Trace', [b'1'])] + many[6:] + [(b'x-trace', [b'2'])],
+                        [(b':status', [b'200'])], [(b'X-Trace', [b'1']), (b'x-trace', [b'1'])]):
+                e = ex(ver, b'https://example.com/', b'GET', rq_, 200, [(b'Content-Type', [b'text/html'])], b'sig', b'p')
+                ops += [f'sxg.hdr {exs(e)}', f'sxg.hdrint {exs(e)}', f'sxg.write {exs(e)}', f'sxg.msg {exs(e)} {"bb" * 32} {hexs(b"https://example.com/v")} 5 10',
+                        f'sxg.sign.mock {exs(e)} {w.keys[0]["cert"]} {hexs(b"https://example.com/cert.msg")} {hexs(b"https://example.com/v")} 5 10']
         # duplicate names after case folding, pseudo-header collisions
         for rs in ([(b'Foo', [b'a']), (b'foo', [b'b'])], [(b':status', [b'x'])], [(b'A', [b'1']), (b'a', [b'2']), (b'B', [b'3'])]):
             e = ex(ver, b'https://example.com/', b'GET', [], 200, rs)
